@@ -18,11 +18,8 @@ theorem mapEntry_hdr (F : Facts cfg) (s : St) (k : MapKind) (kty vty : Ty) (a b 
 
 theorem destructElem_hdr (e : Elem) : (destructElem cfg e).1.hdr = e.hdr := by
   unfold destructElem
-  split
-  · split
-    · rfl
-    · split <;> rfl
-  · rfl
+  repeat' split
+  all_goals rfl
 
 theorem freeElem_hdr (f : FreeOp) (e : Elem) : (freeElem cfg f e).1.hdr = e.hdr := by
   unfold freeElem
@@ -30,10 +27,8 @@ theorem freeElem_hdr (f : FreeOp) (e : Elem) : (freeElem cfg f e).1.hdr = e.hdr 
   all_goals first
     | rfl
     | exact destructElem_hdr e
-    | (split
-       · rfl
-       · split <;> exact destructElem_hdr e)
-    | (split <;> exact destructElem_hdr e)
+    | (repeat' split
+       all_goals first | rfl | exact destructElem_hdr e)
 
 theorem inPlaceElem_hdr {s : St} {e e1 : Elem} {ip : InPlace} {out : Outcome}
     (h : inPlaceElem cfg s e ip = some (e1, out)) : e1.hdr = e.hdr := by
